@@ -69,7 +69,7 @@ REGISTRY = (
 )
 
 
-def rule_a(ctx, E):
+def rule_a(ctx, E, only=None, floor=50):
     R = "C17.a"
     ctx.rule(R, "effect summaries over a registry of call forms documented to return a new object: no mutation event (attribute / subscript "
              "store, in-place operator, mutator method, out=, callee that mutates) may be rooted at a protected argument, under the "
@@ -77,6 +77,8 @@ def rule_a(ctx, E):
     m = ctx.model
     n = 0
     for mod, qn, protect, fixed in REGISTRY:
+        if only is not None and not only(mod, qn):
+            continue
         try:
             f = m.func(mod, qn)
         except AnalysisError:
@@ -97,7 +99,7 @@ def rule_a(ctx, E):
             evs = bad.get(p, [])
             ctx.ob(R, f.qname, f"argument `{p}` is not modified" + (f" (with {fixed})" if fixed else ""), not evs,
                    "; ".join(f"L{getattr(e.node, 'lineno', 0)} {e.kind}: {e.via}" for e in evs[:3]), evs[0].node if evs else f.node)
-    ctx.floor(R, 50)
+    ctx.floor(R, floor)
     ctx.stat("registry_forms", n)
 
 
